@@ -111,6 +111,11 @@ var testSchemes = map[string]barcode.ColorScheme{
 	"cmyk": {Model: color.CMYKModel, Background: color.CMYK{0, 10, 20, 30}, Foreground: color.CMYK{255, 0, 0, 0}},
 	"gray": {Model: color.GrayModel, Background: color.Gray{40}, Foreground: color.Gray{200}},
 	"inv":  {Model: color.Gray16Model, Background: color.Black, Foreground: color.White},
+	// schemes whose colours are NOT values of their model (the contract says: pixels are exactly the scheme's colours)
+	"mix1": {Model: color.RGBAModel, Background: color.White, Foreground: color.Black},
+	"mix2": {Model: color.GrayModel, Background: color.RGBA{250, 240, 230, 255}, Foreground: color.RGBA{200, 0, 0, 255}},
+	"mix3": {Model: color.CMYKModel, Background: color.RGBA{255, 255, 255, 255}, Foreground: color.NRGBA{0, 0, 255, 128}},
+	"mix4": {Model: color.NRGBAModel, Background: color.Gray16{0xffff}, Foreground: color.RGBA{10, 20, 30, 40}},
 }
 
 // barcodes kept alive across case lines (hold / recheck): a returned barcode must be a snapshot,
